@@ -31,31 +31,24 @@ Proof. intros C. unfold Inv, wired. by rewrite closed'_iff, map_Forall_lookup. Q
 Print Assumptions C07_Inv_meaning.
 
 (* ---------------------------------------------------------------- the invariant *)
-(* hypotheses on a subcircuit argument: it is itself legally wired, and none of its outputs is a blackbox pin;
-   fill_blackbox: a pin node that is present has its pin type (a caller may have removed a pin and re-created
-   the name with another type -- see docs/C07.md) *)
-Definition sub_ok (SC : Circuit) : Prop :=
-  Inv SC ∧ pins_ok SC ∅ ∧ ∀ n, n ∈ outputs (c_g SC) → ty (c_g SC) n ≠ Some BbIn ∧ ty (c_g SC) n ≠ Some BbOut.
-Definition args_ok (C : Circuit) (o : op) : Prop :=
+(* hypotheses on the arguments: a subcircuit argument is itself legally wired with all pins in place; the recorded
+   iteration orders of a blackbox's pin sets are orders of those sets *)
+Definition sub_ok (SC : Circuit) : Prop := Inv SC ∧ pins_ok SC ∅.
+Definition args_ok (o : op) : Prop :=
   match o with
-  | OAddSubcircuit SC _ _ => sub_ok SC
-  | OFillBlackbox inst SC =>
-      sub_ok SC ∧ ∀ d, c_bbs C !! inst = Some d →
-        (∀ p, p ∈ bb_in d → ty (c_g C) (pin inst p) ∈ [None; Some BbIn]) ∧
-        (∀ p, p ∈ bb_out d → ty (c_g C) (pin inst p) ∈ [None; Some BbOut])
+  | OAddSubcircuit SC _ _ | OFillBlackbox _ SC => sub_ok SC
+  | OAddBlackbox d _ ins outs _ => list_to_set ins = bb_in d ∧ list_to_set outs = bb_out d
   | _ => True end.
-Fixpoint hist_args_ok (C : Circuit) (ops : list op) : Prop :=
-  match ops with [] => True | o :: l => args_ok C o ∧ hist_args_ok (step C o).1 l end.
 
 (* full strength: every operation, succeeding or raising, preserves the invariant.  NOT proved for fill_blackbox;
    decided for it on every generated history by the oracle (Run_C07.holds). *)
-Definition C07_invariant_full : Prop := ∀ C o, args_ok C o → Inv C → Inv (step C o).1.
-Definition C07_reachable_full : Prop := ∀ C ops, hist_args_ok C ops → Inv C → Inv (run C ops).
+Definition C07_invariant_full : Prop := ∀ C o, args_ok o → Inv C → Inv (step C o).1.
+Definition C07_reachable_full : Prop := ∀ C ops, Forall args_ok ops → Inv C → Inv (run C ops).
 (* the history statement is the one-step statement iterated *)
 Theorem C07_reachable_from_invariant : C07_invariant_full → C07_reachable_full.
 Proof.
-  intros H C ops. revert C. unfold run. induction ops as [|o l IH]; intros C Ha Hi; simpl; [done|].
-  destruct Ha as [Ha Hl]. apply IH; [done|]. by apply H.
+  intros H C ops Ha. revert C. unfold run. induction Ha as [|o l Ha _ IH]; intros C Hi; simpl; [done|].
+  apply IH. by apply H.
 Qed.
 Print Assumptions C07_reachable_from_invariant.
 
@@ -75,15 +68,20 @@ Print Assumptions C07_reachable_from_empty_partial.
 (* ---------------------------------------------------------------- rejected calls *)
 (* full strength: a rejected call changes no wire and raises ValueError (set_output on a missing node: KeyError,
    which the property text does not count as illegal type, name or connection).  Needs `Inv C` (closedness) for the
-   calls that undo their partial effects by removing nodes.  NOT proved for add_blackbox and add_subcircuit. *)
+   calls that undo their partial effects by removing nodes.  NOT proved for add_subcircuit. *)
 Definition reject_exn (o : op) : exn := match o with OSetOutput _ _ => KeyError | _ => ValueError end.
-Definition C07_reject_full : Prop := ∀ C o e, args_ok C o → Inv C → (step C o).2 = Fail e →
+Definition C07_reject_full : Prop := ∀ C o e, args_ok o → Inv C → (step C o).2 = Fail e →
   edges (c_g (step C o).1) = edges (c_g C) ∧ e = reject_exn o.
 (* proved without any hypothesis on C: add, connect, disconnect, remove, set_output (the registry is untouched as well) *)
 Theorem C07_reject_partial : ∀ C o e, basic_op o = true → (step C o).2 = Fail e →
   edges (c_g (step C o).1) = edges (c_g C) ∧ c_bbs (step C o).1 = c_bbs C ∧ e = reject_exn o.
 Proof. exact step_reject_basic. Qed.
 Print Assumptions C07_reject_partial.
+(* a rejected add_blackbox leaves the circuit -- graph and registry -- exactly as it was *)
+Theorem C07_reject_add_blackbox : ∀ C d inst ins outs conns e, Inv C → list_to_set ins = bb_in d → list_to_set outs = bb_out d →
+  (step C (OAddBlackbox d inst ins outs conns)).2 = Fail e → e = ValueError ∧ (step C (OAddBlackbox d inst ins outs conns)).1 = C.
+Proof. intros C d inst ins outs conns e [Hc _]. apply add_blackbox_reject. by apply closed'_iff. Qed.
+Print Assumptions C07_reject_add_blackbox.
 (* fill_blackbox checks everything before it touches the circuit *)
 Theorem C07_reject_fill : ∀ C inst SC e, (step C (OFillBlackbox inst SC)).2 = Fail e → (step C (OFillBlackbox inst SC)).1 = C ∧ e = ValueError.
 Proof. intros C inst SC e. simpl. unfold fill_blackbox. repeat case_match; simpl; intros [=]; done. Qed.
@@ -112,7 +110,7 @@ Print Assumptions C07_uid_fresh.
 (* ---------------------------------------------------------------- blackbox pins *)
 (* R = names the caller passed to remove() so far.  NOT proved for add_blackbox, add_subcircuit, fill_blackbox
    (conjectured for instance and pin names without dots). *)
-Definition C07_pins_full : Prop := ∀ C o R, args_ok C o → Inv C → pins_ok C R → pins_ok (step C o).1 (R ∪ removed_by o).
+Definition C07_pins_full : Prop := ∀ C o R, args_ok o → Inv C → pins_ok C R → pins_ok (step C o).1 (R ∪ removed_by o).
 Theorem C07_pins_partial : ∀ C o R, basic_op o = true → pins_ok C R → pins_ok (step C o).1 (R ∪ removed_by o).
 Proof. exact step_pins_basic. Qed.
 Print Assumptions C07_pins_partial.
@@ -153,10 +151,4 @@ Example C07_ex_violating :
 Proof. split; intros H%C07_invb_spec; vm_compute in H; discriminate. Qed.
 (* the hypotheses of the full statements are satisfiable by a real subcircuit *)
 Example C07_ex_sub_ok : sub_ok ex_sub.
-Proof.
-  split; [apply C07_invb_spec; vm_compute; reflexivity|]. split; [apply C07_pins_okb_spec; vm_compute; reflexivity|].
-  intros n Hn. assert (n = "y") as ->.
-  { apply elem_of_outputs in Hn as (i & Hi & Ho). simpl in Hi. destruct (decide (n = "y")); [done|].
-    rewrite lookup_union_r in Hi by (by rewrite lookup_singleton_ne). apply lookup_singleton_Some in Hi as [<- <-]. done. }
-  vm_compute. split; discriminate.
-Qed.
+Proof. split; [apply C07_invb_spec; vm_compute; reflexivity|apply C07_pins_okb_spec; vm_compute; reflexivity]. Qed.
